@@ -25,14 +25,6 @@ Definition fine {A} (rest_of : A -> bytes) (n : nat) (r : result A) : Prop :=
 Lemma good_fine {A} ro n (r : result A) : good ro n r -> fine ro n r.
 Proof. destruct r; cbn; auto. Qed.
 
-Lemma take_n_length k : forall bs h t, take_n k bs = Some (h, t) -> (length t + k = length bs)%nat.
-Proof.
-  induction k as [|k IH]; intros bs h t H; cbn in H.
-  - injection H as <- <-. lia.
-  - destruct bs as [|b r]; [discriminate|]. destruct (take_n k r) as [[h' t']|] eqn:E; [|discriminate].
-    injection H as <- <-. specialize (IH _ _ _ E). cbn. lia.
-Qed.
-
 Lemma read_n_ok k bs h t : read_n k bs = Ok (h, t) -> (length t + k = length bs)%nat.
 Proof. unfold read_n. destruct (take_n k bs) as [[h' t']|] eqn:E; [|discriminate]. intros H; injection H as <- <-. eapply take_n_length; eauto. Qed.
 Lemma read_n_np k bs : read_n k bs <> Panic /\ read_n k bs <> OutOfFuel.
